@@ -49,6 +49,23 @@ pub fn enc_name(s: &str) -> String {
     out
 }
 
+/// Stricter escaping for outputs with `:`/`,`/`;` separators: only
+/// `[A-Za-z0-9_.-]` stand for themselves.
+pub fn enc2(s: &str) -> String {
+    if s.is_empty() {
+        return "%_".to_string();
+    }
+    let mut out = String::new();
+    for &b in s.as_bytes() {
+        if b.is_ascii_alphanumeric() || b == b'_' || b == b'.' || b == b'-' {
+            out.push(b as char);
+        } else {
+            out.push_str(&format!("%{b:02X}"));
+        }
+    }
+    out
+}
+
 fn ord_s(o: i8) -> &'static str {
     match o {
         -1 => "lt",
